@@ -3,6 +3,38 @@
 and prints the table for DESIGN.md Appendix J."""
 import glob, json, os, re
 ROOT = os.path.dirname(os.path.dirname(os.path.abspath(__file__)))
+# what was done to the checks after a seeded change was missed at its first exposure (commit of /verif and the gist)
+STRENGTHENED = {
+    "C01-A": "77d2f2f: huge / saturating index and length arguments in the stdlib matrix",
+    "C01-B": "77d2f2f, 8aece1b: near-valid programs (every token of a valid program dropped or replaced by a look-alike), C15 similar-token sweep",
+    "C01-C": "fb385e6: every lead byte x boundary second bytes x tails in every lexical context",
+    "C01-D": "fb385e6: format string soup (the directive language inside std.format, every directive with and without '*')",
+    "C02-C": "de06022: constructs over operands of every type, run through the reference interpreter",
+    "C04-C": "84544c4: a file imported from two sites / through an ext-code-file is evaluated once (real files, the binary)",
+    "C04-D": "session 3: rewrites applied to leaves with an outcome of their own (non-finite literals, failing leaves, constants)",
+    "C05-A": "77d2f2f: keys drawn from the same hostile string pool as values (escapes needed in keys)",
+    "C06-A": "77d2f2f: every literal also placed in delayed positions (local, argument, element, field)",
+    "C06-B": "77d2f2f: literals with more than 40 significant digits at and next to rounding midpoints",
+    "C07-C": "f8a76e1: comprehension-built layers that use super, +: and object locals",
+    "C08-B": "fixed_order_and_equality_cases: objects whose visible field sets differ only by a hidden field of the same name",
+    "C10-A": "25fc516: tailstrict calls in every non-tail position",
+    "C10-C": "2ef6008: import cycles whose hops are spelled differently (real files, the binary)",
+    "C11-C": "ba458e3: call thunks made by std.map / makeArray / mapWithKey in the shared library, failing elements re-evaluated",
+    "C11-D": "ba458e3: derived objects (objectRemoveKey, +, mapWithKey) of shared library values in later requests",
+    "C13-C": "5b91ee3: the same -J directory given several times, in every position",
+    "C13-D": "5b91ee3: a directory in place of a file at a higher-priority location with a regular file further down the search order",
+    "C14-A": "77d2f2f: comment bodies made of '*' and '/' runs in the token soup",
+    "C16-B": "78ad94e / C16 templates: errors whose span touches the last byte of the file",
+    "C17-B": "77d2f2f: -0 / +0 keys (zero_sign-aware comparison of sorted output)",
+    "C09-E": "session 3 (written before this change was confirmed): faults inside dead code of every kind, literal short-circuits included",
+    "C09-F": "session 3: a repeated parameter / local whose name is also bound in an enclosing scope",
+    "C17-F": "session 3: structured input orders (non-increasing with ties, rotations, blocks, sawtooth, organ pipe)",
+    "C18-F": "session 3: separator-dense subjects (built from the separator's own prefixes and suffixes, so that occurrences overlap)",
+    "C19-E": "session 3: o/x/X must denote trunc(x) exactly at every magnitude; integers around every power of two up to 2^1023",
+    "C19-F": "session 3: '.*' precision on %s and %c (argument consumption)",
+    "C20-E": "session 3: malformed tails of \\u escapes and lenient number spellings in mutated documents",
+    "C20-F": "session 3: std.parseYaml vs std.parseJson compared with the sign of zero",
+}
 rows = []
 for d in sorted(glob.glob(os.path.join(ROOT, "seeded", "C*-[A-D]"))):
     sid = os.path.basename(d)
@@ -12,6 +44,8 @@ for d in sorted(glob.glob(os.path.join(ROOT, "seeded", "C*-[A-D]"))):
     suite = re.search(r"suite with change: (.*)", log)
     d1 = re.search(r"demo with change: exit (\d+)", log)
     d0 = re.search(r"demo without change: exit (\d+)", log)
+    first = re.findall(r"== check (C\d+) against the change\n(?:.*\n)*?exit=(\d+)", log)
+    first_verdict = {c: ("caught" if rc == "1" else "missed" if rc == "0" else "exit " + rc) for c, rc in first}
     results = []
     caught_by = []
     if os.path.exists(os.path.join(d, "check_result.txt")):
@@ -33,13 +67,19 @@ for d in sorted(glob.glob(os.path.join(ROOT, "seeded", "C*-[A-D]"))):
             "demo_exit_with_change": int(d1.group(1)) if d1 else None,
             "demo_exit_without_change": int(d0.group(1)) if d0 else None,
         },
+        "verdict_at_first_exposure": first_verdict,
+        "strengthened": STRENGTHENED.get(sid),
         "checks_run": results,
         "caught_by": caught_by,
         "agent_report": am.get("ran", ""),
     }
     json.dump(meta, open(os.path.join(d, "meta.json"), "w"), indent=1)
-    rows.append((sid, (am.get("summary", "") or "").replace("|", "/").replace("\n", " ")[:170], ", ".join(f"{r['check']}: " + ("caught (" + ", ".join(r["signatures"][:2]) + ")" if r["exit"] == 1 else "MISSED" if r["exit"] == 0 else f"exit {r['exit']}") for r in results)))
-print("| seed | change (agent's summary, shortened) | quick check verdict |")
-print("|---|---|---|")
+    def short(sig):
+        return re.sub(r"panic:/tmp/mut/\d+/wt/", "panic:", sig)
+    now = ", ".join(f"{r['check']}: " + ("caught (" + ", ".join(short(x) for x in r["signatures"][:2]) + ")" if r["exit"] == 1 else "MISSED" if r["exit"] == 0 else f"exit {r['exit']}") for r in results)
+    fv = ", ".join(f"{c} {v}" for c, v in first_verdict.items()) or "-"
+    rows.append((sid, (am.get("summary", "") or "").replace("|", "/").replace("\n", " ")[:200], fv, now, STRENGTHENED.get(sid) or ""))
+print("| seed | change (agent's summary, shortened) | first exposure | quick checks now | strengthening that followed a miss |")
+print("|---|---|---|---|---|")
 for r in rows:
-    print("| %s | %s | %s |" % r)
+    print("| %s | %s | %s | %s | %s |" % r)
